@@ -1,7 +1,7 @@
 (* C09 -- the statements of Properties/C09.v, written out, from the lemmas of
    ProofsNet / ProofsDisk / ProofsSys / ProofsUsage *)
 From PV Require Import C09.Spec C09.Lib.
-From PV Require Export C09.ProofsNet C09.ProofsDisk C09.ProofsSys C09.ProofsUsage C09.ProofsHist C09.ProofsBig C09.ProofsWrap.
+From PV Require Export C09.ProofsNet C09.ProofsDisk C09.ProofsSys C09.ProofsUsage C09.ProofsHist C09.ProofsBig C09.ProofsWrap C09.ProofsUnit.
 
 (* the named-tuple definitions found in the code (coq/Gen/C09_Tables.v, regenerated on every run)
    are the documented ones, in the documented order *)
